@@ -62,6 +62,16 @@ def check(rep, tier, seed):
               # the same builder errors with a projection requested (shape or individuals), in every position of the list
               "sites a,b a:A,x:B s:3,3 0/1,0/0", "sites a,b x:A,a:B i:1,1 0/1,0/0", "sites a,b a:A,x:A s:3 0/1,0/0", "sites a,b EMPTY s:3 0/1,0/0",
               "sites a,b ghost:- i:1 0/1,0/0", "sites a,b,c a:A,b:B,ghost:B s:3,3 0/1,0/0,1/1", "sites a,b a:A,a:B s:3,3 0/1,0/0"]
+    # lists that name a sample twice (the later entry wins; any population may be left empty -> a diagnosed error) and
+    # otherwise the map the model builds
+    dl = []
+    for n in (2, 3, 4):
+        for nm in itertools.product("abc", repeat=n):
+            if len(set(nm)) < n:
+                for lb in itertools.product("ABC", repeat=n):
+                    dl.append(",".join("%s:%s" % (x, y) for x, y in zip(nm, lb)))
+    for l in (dl if tier == "thorough" else ["a:A,b:B,b:C", "a:A,b:B,a:C", "a:A,b:B,c:C,b:A"] + rng.sample(dl, 150)):
+        cases.append("sites a,b,c %s - 0/1,0/0,1/1;1/1,0/1,./." % l)
     compare_cases(rep, "sample-map", cases, nontrivial=lambda c, m: m.startswith("SHAPE=") and "," in m.split()[0],
                   classify=lambda c, m, i: "axes:" + ("panic" if "PANIC" in i or "PANIC" in m else "site-reader"), spec=True)
 
@@ -76,10 +86,14 @@ def check(rep, tier, seed):
                   classify=lambda c, m, i: "axes:samples-file-parser", spec=True)
 
     # binary: invariances
-    jobs, groups = [], []
+    jobs, groups, groupcases = [], [], []
     for k in range(25 if tier == "quick" else 250):
         cols, recs = random_callset(rng, nsamples=rng.randrange(2, 7), nrecords=rng.randrange(1, 12), p_skip=0.1)
         sm = random_map(rng, cols, allow_unnamed=(k % 3 == 0))
+        if k % 2 == 0 and len(sm) < len(cols):
+            # unlisted columns carry haploid / triploid / multiallelic / missing genotypes: only listed samples count
+            listed = {n for n, _ in sm}
+            recs = [[g if c in listed else rng.choice(["0", "1", "0/1/1", "1|2|3", ".", "./.", "0/2", "5"]) for c, g in zip(cols, r)] for r in recs]
         labels = list(dict.fromkeys(l for _, l in sm))
         base = len(jobs)
         jobs.append((["create"] + cli_samples_arg(sm), render_vcf(cols, recs)))
@@ -114,7 +128,17 @@ def check(rep, tier, seed):
         rev_sm = sorted(sm, key=lambda e: -labels.index(e[1]))
         jobs.append((["create"] + cli_samples_arg(rev_sm), render_vcf(cols, recs)))
         groups.append((base, len(labels), sm))
+        groupcases.append("create 0 %s %s - %s" % (",".join(cols), model_samples(sm), model_records(recs)))
     res = run_cli_many(jobs)
+    refmodel = run_model(groupcases)
+    for (base, nl, sm), exp in zip(groups, refmodel):
+        ref = res[base]
+        if exp.startswith("OK"):
+            e = exp.split(); p0 = parse_text_spectrum(ref[1])
+            if ref[0] != 0 or p0 is None or p0[0] != [int(x) for x in e[1].split(",")] or p0[1] != e[2].split(","):
+                rep.fail(kind="cli-vs-model", cls="axes:reference-vs-model", case=exp[:200], argv=["sfs"] + jobs[base][0], stdin=jobs[base][1].decode(),
+                         observed={"rc": ref[0], "stdout": ref[1].decode(errors="replace")[:300], "stderr": ref[2].decode(errors="replace")[-300:]}, expected=exp[:300],
+                         detail="the spectrum of the listed samples differs from the model's (unlisted columns must not matter)")
     for base, nl, sm in groups:
         ref, colp, reo, fil, rev = res[base:base + 5]
         rep.count("binary-invariances", " ".join(jobs[base][0]), nl >= 2, n=5)
